@@ -697,6 +697,29 @@ def install(ip):
     def _sipow(ip, args, kw):
         return ip.power(args[0], args[1])
 
+    @reg('scipy.optimize.root')
+    def _root(ip, args, kw):
+        """Assumed contract of scipy.optimize.root(F, x0, ...) for vector problems (DESIGN A5, R1/R2): it evaluates F
+        a finite number of times and the *last* evaluation is at the returned point x, with fun = F(x).  Modelled as
+        one evaluation at an arbitrary trial vector (so that any dependence of F on state left by earlier
+        evaluations is exposed) followed by the final evaluation at an arbitrary x."""
+        F = args[0]
+        x0 = ip.unopt(args[1])
+        if not isinstance(x0, SArr) or len(x0.shape) != 1:
+            raise Unsupported('scipy.optimize.root with a non-vector initial guess')
+        n = x0.shape[0]
+        ip.st.root_calls = getattr(ip.st, 'root_calls', 0) + 1
+        k = ip.st.root_calls
+
+        def sym_vec(tag):
+            f = z3.Function('root!%d!%s' % (k, tag), z3.IntSort(), z3.RealSort())
+            return ip.st.new_array((n,), lambda idx: f(to_int(idx[0])))
+        xa = sym_vec('trial')
+        yield from ip.call(F, [xa], {})
+        xs = sym_vec('x')
+        fs = yield from ip.call(F, [xs], {})
+        return I.SRecord('OptimizeResult', x=xs, fun=fs, success=z3.Bool('root!%d!success' % k))
+
     @reg('builtins.koyama_w')
     def _koyama_w(ip, args, kw):
         k, n, p = args
